@@ -30,8 +30,9 @@ Guarantees:
 Spec format (all JSON-able):
   spec  = {"root": "module"|"op"|"region"|"block", "node": <op | [block,...] | block>, "outside": [typekey,...]}
   op    = {"id": int, "name": str, "res": [typekey], "rh": [hint|None], "opnds": [ref], "succ": [block id],
-           "attrs": [[key, attrkey],...] (ordered), "props": [[key, attrkey],...], "regions": [[block,...],...]}
-  block = {"id": int, "args": [typekey], "ah": [hint|None], "ops": [op,...]}
+           "attrs": [[key, attrkey],...] (ordered), "props": [[key, attrkey],...], "regions": [[block,...],...],
+           optional "loc": [file, line, col]}
+  block = {"id": int, "args": [typekey], "ah": [hint|None], "ops": [op,...], optional "al": [[file, line, col]|None per arg]}
   ref   = ["r", op id, result index] | ["a", block id, arg index] | ["x", outside index]
   Ids are unique per spec (ops and blocks have separate id spaces) and survive `mutate_spec`.
 
@@ -149,6 +150,7 @@ class Cfg:
     p_hint: float = 0.3
     p_attr: float = 0.4
     p_prop: float = 0.3
+    p_loc: float = 0.0            # an op / a block argument carries a non-default source location (FileLineColLoc)
     p_successor: float = 0.8      # a terminator in a multi-block region branches
     entry_successors: bool = False  # allow branches to the ENTRY block of a region (MLIR forbids it; xDSL's verifier
     #                                 does not, but the printer omits the entry label, so such IR does not re-parse)
@@ -170,7 +172,7 @@ class Cfg:
     @staticmethod
     def hostile(**kw):
         """Everything on: forward references, cycles, empty blocks, wild terminators."""
-        d = dict(verifiable=False, entry_successors=True, p_empty_block=0.1, p_value_cycle=0.15, w_fwd_same_block=3.0, w_other_block=3.0,
+        d = dict(verifiable=False, entry_successors=True, p_empty_block=0.1, p_loc=0.15, p_value_cycle=0.15, w_fwd_same_block=3.0, w_other_block=3.0,
                  w_enclosing_fwd=2.5, p_multiblock=0.5)
         d.update(kw)
         return Cfg(**d)
@@ -350,6 +352,8 @@ class _Gen:
         res = [self.ty() for _ in range(nres)]
         o = {"id": oid, "name": name, "res": res, "rh": [self.hint() for _ in res], "opnds": [], "succ": [],
              "attrs": [], "props": [], "regions": []}
+        if cfg.p_loc and rng.random() < cfg.p_loc:
+            o["loc"] = [rng.choice(("a.mlir", "dir/b.py")), rng.randint(1, 99), rng.randint(0, 40)]
         if rng.random() < cfg.p_attr:
             keys = rng.sample(ATTR_KEYS, rng.randint(1, 3))
             o["attrs"] = [[k, rng.choice(self._attr_keys)] for k in keys]
@@ -408,6 +412,9 @@ class _Gen:
         nargs = min(nargs, cfg.max_block_args)
         args = [self.ty() for _ in range(nargs)]
         b = {"id": bid, "args": args, "ah": [self.hint() for _ in args], "ops": []}
+        if cfg.p_loc and args and rng.random() < cfg.p_loc:
+            b["al"] = [[rng.choice(("a.mlir", "dir/b.py")), rng.randint(1, 99), rng.randint(0, 40)] if rng.random() < 0.6 else None
+                       for _ in args]
         if rng.random() < cfg.p_empty_block and (not cfg.verifiable or not need_term):
             return b
         n = rng.randint(0, cfg.max_block_ops)
@@ -526,6 +533,11 @@ def _op_class(name):
     return _CTX.get_op(name)  # unregistered op class (Context(allow_unregistered=True))
 
 
+def _loc(l):
+    from xdsl.dialects.builtin import FileLineColLoc, IntAttr, StringAttr
+    return FileLineColLoc(StringAttr(l[0]), IntAttr(l[1]), IntAttr(l[2]))
+
+
 def build(spec, outside=None) -> Built:
     """Materialise a spec. `outside`: optional list of SSAValues to use for the ["x", i] refs (default: fresh
     results of detached test.op holders, kept alive in Built.keepalive)."""
@@ -549,6 +561,9 @@ def build(spec, outside=None) -> Built:
         for a, h in zip(blk.args, b["ah"]):
             if h is not None:
                 a.name_hint = h
+        for a, loc in zip(blk.args, b.get("al") or ()):
+            if loc is not None:
+                a.location = _loc(loc)
         blocks[bid] = blk
     ops: dict = {}
     patches = []  # (op id, operand index, ref)
@@ -594,7 +609,8 @@ def build(spec, outside=None) -> Built:
                             properties={k: ATTRS[v] for k, v in o["props"]},
                             attributes={k: ATTRS[v] for k, v in o["attrs"]},
                             successors=[blocks[s] for s in o["succ"]],
-                            regions=[Region() for _ in o["regions"]])
+                            regions=[Region() for _ in o["regions"]],
+                            location=_loc(o["loc"]) if o.get("loc") else None)
             for res, h in zip(op.results, o["rh"]):
                 if h is not None:
                     res.name_hint = h
